@@ -273,7 +273,21 @@ impl Monitor for C15 {
                         col.event("after_reinit_runs");
                     }
                     let out = if imp == 0 {
-                        match trap(|| BaseBandModulationParams::new(SFS[sfi], BWS[bwi], CRS[cri]).ldro) {
+                        // (every other coding rate: the calculator's parameters as an application gets them back
+                        // from where it stored them - the crate's serde form - which are the same parameters)
+                        let stored = cri % 2 == 1;
+                        if stored {
+                            col.event("calculator_parameters_reloaded");
+                        }
+                        match trap(|| {
+                            let p = BaseBandModulationParams::new(SFS[sfi], BWS[bwi], CRS[cri]);
+                            if stored {
+                                let t = serde_json::to_string(&p).expect("modulation parameters serialise");
+                                serde_json::from_str::<BaseBandModulationParams>(&t).expect("serialised modulation parameters deserialise").ldro
+                            } else {
+                                p.ldro
+                            }
+                        }) {
                             Ok(l) => Outcome::Decided(l as u8, None, None, None, None),
                             Err(t) => Outcome::Panic(t),
                         }
